@@ -290,6 +290,26 @@ func famJump(ep evmkit.Epoch) []Case {
 			}
 		}
 	}
+	// jump-destination analysis: a PUSH of every width at every alignment modulo 8 whose data consists of
+	// JUMPDEST bytes; a jump to every byte of the program (padding JUMPDESTs: valid; the PUSH opcode and
+	// every data byte: invalid; the JUMPDEST after the data: valid)
+	for n := 1; n <= 32; n++ {
+		for al := 0; al < 8; al++ {
+			pad := ((al-3)%8 + 8) % 8
+			body := bytes.Repeat([]byte{opJUMPDEST}, pad)
+			body = append(body, byte(0x5f+n))
+			body = append(body, bytes.Repeat([]byte{opJUMPDEST}, n)...)
+			body = append(body, opJUMPDEST, opPC, opSTOP)
+			for t := 3; t < 3+len(body); t++ {
+				a := new(asm).op(opPUSH1, byte(t), opJUMP).op(body...)
+				out = append(out, Case{Family: "jump", Code: a.bytes(), Gas: gasWord, Ep: ep})
+				if t%3 == 0 {
+					b := new(asm).op(opPUSH1, 1, opPUSH1, byte(t+2), opJUMPI).op(body...)
+					out = append(out, Case{Family: "jump", Code: b.bytes(), Gas: gasWord, Ep: ep})
+				}
+			}
+		}
+	}
 	for _, d := range append(offsetLattice(), lattice24()...) {
 		out = append(out, Case{Family: "jump", Code: new(asm).push(d).op(opJUMP, opJUMPDEST).bytes(), Gas: gasWord, Ep: ep})
 		out = append(out, Case{Family: "jump", Code: new(asm).pushU(1).push(d).op(opJUMPI, opJUMPDEST).bytes(), Gas: gasWord, Ep: ep})
